@@ -171,9 +171,10 @@ def replay_c01(ctx, case):
 def plain_corpus(ctx, cfgs):
     """inputs that are not written by CookDoc (no prediction): short strings, repository recipes, random splices"""
     quick = ctx.tier == "quick"
-    recs = lexer_corpus(ctx, ["MC_Lexer_quick.cfg", "MC_Lexer_reduced4.cfg"] if quick else ["MC_Lexer_full4.cfg", "MC_Lexer_reduced5.cfg"])
+    recs = lexer_corpus(ctx, ["MC_Lexer_quick.cfg", "MC_Lexer_reduced4.cfg"] if quick else ["MC_Lexer_full4.cfg", "MC_Lexer_reduced5.cfg"],
+                        cap=None if quick else 100000)
     repo = repo_corpus()
-    recs += repo + random_corpus(ctx, 4000 if quick else 80000, [r["text"] for r in repo]) + repetition_corpus()
+    recs += repo + random_corpus(ctx, 4000 if quick else 40000, [r["text"] for r in repo]) + repetition_corpus()
     out = []
     for r in recs:
         for bits, conv in cfgs:
@@ -190,7 +191,7 @@ ALL_EXT = 3818
 
 def check_c06(ctx):
     core.build_harness()
-    recs = generated_corpus(ctx) + plain_corpus(ctx, [(ALL_EXT, "bundled"), (0, "empty")] + ([] if ctx.tier == "quick" else [(ALL_EXT, "empty"), (2 | 64 | 2048, "bundled")]))
+    recs = generated_corpus(ctx) + defect_corpus(ctx) + plain_corpus(ctx, [(ALL_EXT, "bundled"), (0, "empty")] + ([] if ctx.tier == "quick" else [(ALL_EXT, "empty"), (2 | 64 | 2048, "bundled")]))
     pin = os.path.join(ctx.work, "docs_in.ndjson")
     pout = os.path.join(ctx.work, "docs_obs.ndjson")
     core.write_ndjson(pin, recs)
@@ -301,6 +302,11 @@ def check_c02(ctx):
     for t in ["---\ntitle: x\n---\n>> note: serve hot\n@a{1}\n", "---\nservings: 2\n---\nMix @a{1}\n\n>> servings: 4\n\nand @b{2}\n",
               "---\nk: v\n---\n>> k: w\n\nstep\n", "---\n---\n>> source: book\nstep\n"]:
         conv_docs.append(dict(text=t, ext=[], conv="bundled", lacking=0, uses=[], src="frontmatter-then-entry"))
+    # a number glued to letters is one text value under every subset; a timer without a duration wherever TIMER_REQ is off
+    for t in ["@flour{2kg} @eggs{3x} @milk{1/2cup} #jug{1big}\n", "@a{2kg%bag} @b{3x%}\n"]:
+        conv_docs.append(dict(text=t, ext=[], conv="bundled", lacking=0, uses=[], src="glued-number"))
+    for t in ["~rest and ~boil eggs{} then @a{1}\n", "Wait ~a while{} #p{}\n"]:
+        conv_docs.append(dict(text=t, ext=[], conv="bundled", lacking=EXT_BITS["TIMER_REQ"], uses=["TIMER_REQ"], src="bare-timers"))
     # `|` in a name, once, twice, at either end: without ALIAS it is an ordinary character of the name
     for t in ["@white wine|wine{}\n", "@white wine|wine|vino{}\n", "#pot|pan|wok{} and #lid|cover\n", "@a||b{1}\n", "@|a{} @b|{}\n", "~rest|wait{5%min} @x|y|z\n"]:
         conv_docs.append(dict(text=t, ext=[], conv="bundled", lacking=EXT_BITS["ALIAS"], uses=["ALIAS"], src="pipes"))
